@@ -713,7 +713,7 @@ def _havoc_items(E, s, base):
         s.heap[key] = z3.Store(E.arr(s, key, z3.IntSort(), S), base.t, z3.Const(fresh_name("hv_list"), S))
     elif base.kind.tag in ("dict", "odict"):
         K = sort_of(base.kind[1])
-        kk = "DK|%s" % (base.kind[1],)
+        kk = "DK|%s|%s" % (base.kind[1], base.kind[2])
         s.heap[kk] = z3.Store(E.arr(s, kk, z3.IntSort(), z3.ArraySort(K, z3.BoolSort())), base.t,
                               z3.Const(fresh_name("hv_dk"), z3.ArraySort(K, z3.BoolSort())))
         vkind = base.kind[2]
@@ -729,7 +729,7 @@ def _havoc_items(E, s, base):
             s.heap[vk] = z3.Store(E.arr(s, vk, z3.IntSort(), z3.ArraySort(K, sort_of(k))), base.t,
                                   z3.Const(fresh_name("hv_dv"), z3.ArraySort(K, sort_of(k))))
         if base.kind.tag == "odict":
-            ok = "DO|%s" % (base.kind[1],)
+            ok = "DO|%s|%s" % (base.kind[1], base.kind[2])
             s.heap[ok] = z3.Store(E.arr(s, ok, z3.IntSort(), z3.SeqSort(K)), base.t,
                                   z3.Const(fresh_name("hv_do"), z3.SeqSort(K)))
     else:
